@@ -222,6 +222,64 @@ def prior_labels(draw):
     return draw(st.lists(st.sampled_from(PRIOR_LABELS), min_size=1, max_size=5, unique=True))
 
 
+HEIGHT_STEPS = [0.5, 1.0, 1.25, 2.0, 0.25, 3.0]
+
+
+@st.composite
+def ultrametric_newick_docs(draw, max_taxa=6, max_trees=4, nexus=False):
+    """Trees whose every non-root edge has a length and whose tips are all at the same distance from the root (node
+    heights are sums of dyadic steps, so the written lengths add up exactly): the inputs on which node ages are defined.
+    Written as Newick statements, or as one NEXUS TREES block when nexus=True."""
+    ntax = draw(st.integers(2, max_taxa))
+    labels = draw(docs.label_sets(ntax, pools=(docs.PLAIN_LABELS,), weights=(1,)))
+    rtoken = draw(st.sampled_from(["", "[&R]", "[&R]", "[&U]"]))     # one rooting for the whole document
+    trees = []
+    out = "#NEXUS\nBEGIN TREES;\n" if nexus else ""
+    for k in range(draw(st.integers(1, max_trees))):
+        n = draw(st.integers(2, ntax))
+        spec = draw(shapes.shapes(min_leaves=n, max_leaves=n, max_arity=3, unifurcations=False))
+        perm = list(draw(st.permutations(list(range(ntax)))))
+        height = {}
+
+        def set_height(sp):
+            if sp["t"] is not None:
+                sp["t"] = perm[sp["t"]]
+            if not sp["ch"]:
+                height[id(sp)] = 0.0
+                return 0.0
+            h = max(set_height(c) for c in sp["ch"]) + draw(st.sampled_from(HEIGHT_STEPS))
+            height[id(sp)] = h
+            return h
+        set_height(spec)
+        for sp in shapes.spec_nodes(spec):
+            for c in sp["ch"]:
+                c["len"] = height[id(sp)] - height[id(c)]
+        text = shapes.spec_to_newick(spec, labels)
+        weight, wtext = None, ""
+        if draw(st.integers(0, 2)) == 0:
+            wtext, x, y = draw(st.sampled_from(WEIGHTS + ZERO_WEIGHTS if any(t["weight"] for t in trees) else WEIGHTS))
+            weight = x if y is None else x / y
+        head = (rtoken + wtext + " ") if (rtoken or wtext) else ""
+        if nexus:
+            out += "  TREE t%d = %s%s\n" % (k + 1, head, text)
+        else:
+            out += head + text + "\n"
+        trees.append({"name": "t%d" % (k + 1) if nexus else None,
+                      "rooted": {"": None, "[&R]": True, "[&U]": False}[rtoken], "weight": weight, "block": 0,
+                      "spec": _plain_spec(spec)})
+    if nexus:
+        out += "END;\n"
+    feats = {"translate": False, "comment": False, "weight": any(t["weight"] is not None for t in trees), "blocks": 1,
+             "recased": False, "ultrametric": True}
+    content = {"taxon_labels": labels, "ntax": None, "trees": trees, "matrices": [], "features": feats}
+    return {"text": out, "schema": "nexus" if nexus else "newick", "kwargs": {}, "matrix_type": None, "content": content,
+            "features": feats}
+
+
+def _plain_spec(spec):
+    return {"t": spec["t"], "lab": spec["lab"], "len": spec["len"], "ch": [_plain_spec(c) for c in spec["ch"]]}
+
+
 def features_of(doc):
     """{"translate", "comment", "weight", "blocks", "ntrees"} of a lib/docs.py or c13 document (text scan for the former)."""
     if doc.get("features"):
